@@ -116,6 +116,14 @@ UpdTncFinger(r) ==
   ELSE IF ~r.compiles THEN {<<"C01", "does-not-compile", "update-tnc", r.id>>}
   ELSE IF r.panic THEN {<<"C10", "update-method-panics", "update-tnc", r.id>>}
   ELSE IF r.post # 9 THEN {<<"C10", "field-overwritten", "N-target-struct-not-comparable", r.id>>} ELSE {}
+\* C06 under `default`: a *declared* method Inner(DV) DVO with its own field setting (map V | Twice) exists for the struct pair of the
+\* method with the constructor: the declared method is what converts the pair (V arrives doubled), whatever the constructor does
+DeclInnerFinger(r) ==
+  IF r.gen = "panic" THEN {<<"C13", "generator-panic", r.why, r.id>>}
+  ELSE IF r.gen # "ok" THEN {<<"C11", "default-constructor-program-rejected", "declared-inner", r.id>>}
+  ELSE IF ~r.compiles THEN {<<"C01", "does-not-compile", "default-declared-inner", r.id>>}
+  ELSE IF r.panic THEN {<<"C11", "method-with-default-panics", "declared-inner", r.id>>}
+  ELSE IF r.res.nil \/ r.res.A # 10 THEN {<<"C06", "declared-method-not-used", "under-default-" \o r.prog.x, r.id>>} ELSE {}
 \* C11, default constructors: res = [nil, A, B] of the returned struct (nil: a nil pointer was returned)
 DMatch(e, got) == e = -1 \/ e = got
 DefFinger(r) ==
@@ -137,7 +145,7 @@ Finger18(r) ==
        \cup (IF \E i \in DOMAIN r.decls : r.decls[i] \notin {"struct", "method"} THEN {<<"C18", "extra-top-level-declaration", r.kind, r.id>>} ELSE {})
 Finger0(r) == IF r.kind = "genfile" THEN {}
               ELSE IF r.kind = "update-iface" THEN (IF r.gen = "ok" /\ r.compiles THEN {} ELSE {<<"C10", "update-method-rejected", "interface-member", r.id>>})
-              ELSE IF r.kind = "field" THEN FieldFinger(r) ELSE IF r.kind = "acc" THEN AccFinger(r) ELSE IF r.kind = "fieldx" THEN XFinger(r) ELSE IF r.kind = "default-rebuild" THEN RebuildFinger(r) ELSE IF r.kind = "default-list" THEN ListFinger(r) ELSE IF r.kind = "default-map" THEN MapFinger(r) ELSE IF r.kind = "default-fallible" THEN DefFallibleFinger(r) ELSE IF r.kind \in {"update-wrap", "mapfunc-wrap"} THEN UpdWrapFinger(r) ELSE IF r.kind = "update-odd" THEN UpdOddFinger(r) ELSE IF r.kind = "update-tnc" THEN UpdTncFinger(r) ELSE IF r.kind = "mapfunc-parent" THEN MapFuncFinger(r) ELSE IF r.kind \in {"default-update-rec", "default-update-shared"} THEN UpdRecFinger(r) ELSE IF r.kind = "default" THEN DefFinger(r) ELSE UpdFinger(r)
+              ELSE IF r.kind = "field" THEN FieldFinger(r) ELSE IF r.kind = "acc" THEN AccFinger(r) ELSE IF r.kind = "fieldx" THEN XFinger(r) ELSE IF r.kind = "default-rebuild" THEN RebuildFinger(r) ELSE IF r.kind = "default-list" THEN ListFinger(r) ELSE IF r.kind = "default-map" THEN MapFinger(r) ELSE IF r.kind = "default-declared-inner" THEN DeclInnerFinger(r) ELSE IF r.kind = "default-fallible" THEN DefFallibleFinger(r) ELSE IF r.kind \in {"update-wrap", "mapfunc-wrap"} THEN UpdWrapFinger(r) ELSE IF r.kind = "update-odd" THEN UpdOddFinger(r) ELSE IF r.kind = "update-tnc" THEN UpdTncFinger(r) ELSE IF r.kind = "mapfunc-parent" THEN MapFuncFinger(r) ELSE IF r.kind \in {"default-update-rec", "default-update-shared"} THEN UpdRecFinger(r) ELSE IF r.kind = "default" THEN DefFinger(r) ELSE UpdFinger(r)
 \* C02: no executed method of this family may panic (nil intermediate pointers, nil sources, zero fields are among the inputs)
 PanicFinger(r) == IF "panic" \in DOMAIN r /\ r.panic = TRUE /\ r.gen = "ok" THEN {<<"C02", "panic", "struct-family-" \o r.kind, r.id>>} ELSE {}
 VARIABLES l, bad
